@@ -17,7 +17,6 @@ import (
 	"net/url"
 	"os"
 	"path/filepath"
-	"sort"
 	"strings"
 	"testing"
 
@@ -103,9 +102,26 @@ func TestVerifC14Ctl(t *testing.T) {
 	c14LargeBoost = 45 // 6 % large pools here: 65..600 nodes through the real constructor and loop
 
 	port := 0
-	run := func(nodes []c14Node, d *c14Def, forceDirect bool) {
-		g, global, via, parserChanged := c14Obtain(r, d, forceDirect, stats)
-		g.Name = "g"
+	run := func(nodes []c14Node, defs []*c14Def, forceDirect bool, kind string) {
+		// the real config.Group of every definition (through the real parser when expressible)
+		var gs []*config.Group
+		var global *config.Global
+		via, parserChanged, over := "direct", "", 0
+		for k, d := range defs {
+			g, gl, v, pc := c14Obtain(r, d, forceDirect, stats)
+			g.Name = fmt.Sprintf("g%d", k)
+			gs = append(gs, g)
+			if k == 0 {
+				global = gl
+			}
+			if v == "parser" {
+				via = v
+			}
+			if pc != "" {
+				parserChanged = pc
+			}
+			over |= d.Over
+		}
 		option := dialer.NewGlobalOption(global, c14CtlLog)
 
 		// the pool as subscriptions: tag -> links, unique link per node
@@ -134,13 +150,17 @@ func TestVerifC14Ctl(t *testing.T) {
 			stats.Inc("pool.subscriptions_2_plus")
 		}
 
+		groups := make([]config.Group, 0, len(gs))
+		for _, g := range gs {
+			groups = append(groups, *g)
+		}
 		res, lerr := func() (res *c14Region, err error) {
 			defer func() {
 				if rec := recover(); rec != nil {
 					err = fmt.Errorf("crash:%v", rec)
 				}
 			}()
-			return c14RealGroupRegion(option, tagToNodeList, []config.Group{*g}, global, c14CtlLog)
+			return c14RealGroupRegion(option, tagToNodeList, groups, global, c14CtlLog)
 		}()
 		defer func() {
 			if res != nil {
@@ -155,7 +175,7 @@ func TestVerifC14Ctl(t *testing.T) {
 			}
 		}()
 
-		// read the pool back: order, names, tags as the REAL constructor made them
+		// read the pool back AFTER the whole loop ran: order, names, tags as the real code left them
 		var pool []c14Node
 		index := map[*dialer.Dialer]int{}
 		byLink := map[string]int{}
@@ -177,7 +197,7 @@ func TestVerifC14Ctl(t *testing.T) {
 					poolOK = "unknown-link:" + c14x(dd.Property().Link)
 				case w.Name != dd.Property().Name:
 					poolOK = "name:" + c14x(w.Name) + "/" + c14x(dd.Property().Name)
-				case w.Tag != tag:
+				case w.Tag != tag && ok:
 					poolOK = "tag:" + c14x(w.Tag) + "/" + c14x(tag)
 				}
 				perTag[tag] = append(perTag[tag], dd.Property().Link)
@@ -185,8 +205,7 @@ func TestVerifC14Ctl(t *testing.T) {
 			if len(ds) != len(nodes) && poolOK == "ok" {
 				poolOK = fmt.Sprintf("size:%d/%d", len(nodes), len(ds))
 			}
-			// inside one subscription the order is the order written
-			for tag, got := range perTag {
+			for tag, got := range perTag { // inside one subscription the order is the order written
 				var exp []string
 				for _, l := range tagToNodeList[tag] {
 					if _, ok := want[l]; ok {
@@ -201,105 +220,191 @@ func TestVerifC14Ctl(t *testing.T) {
 			pool = nodes
 			poolOK = "no-pool"
 		}
+		// the op's pool: what was WRITTEN, in the order the constructor chose (if the real code lost
+		// or changed a tag/name afterwards, the pool check above reports it, and the members of the
+		// later groups are still compared against the meaning over the written pool)
+		for i := range pool {
+			if res != nil && res.DialerSet != nil {
+				if w, ok := want[res.DialerSet.VerifC14Dialers()[i].Property().Link]; ok {
+					pool[i] = w
+				}
+			}
+		}
 
-		var body, pb strings.Builder
-		o := c14BodyTok(&body, pool, g)
-		valid := c14Valid(o, g)
-		c14PolicyTok(&pb, g.Policy)
+		var body strings.Builder
+		o := c14MultiTok(&body, pool, gs)
+		valid, lenient, kwsubtag := true, false, true
+		for _, g := range gs {
+			valid = valid && c14Valid(o, g)
+			lenient = lenient || c14LenientPolicy(g.Policy)
+			kwsubtag = kwsubtag && (c14Valid(o, g) || c14OnlyKeywordOnSubtag(o, g))
+		}
+		kwsubtag = kwsubtag && !valid
 
-		out := ""
+		out, ids := "", "-"
 		switch {
 		case lerr != nil && strings.HasPrefix(lerr.Error(), "crash:"):
 			out = lerr.Error()
 		case lerr != nil:
 			m := lerr.Error()
-			// control_plane wraps: `failed to create group g: <policy error>` / `failed to create group "g": <filter error>`
+			// control_plane wraps: `failed to create group gK: <policy error>` / `failed to create group "gK": <filter error>`
 			switch {
-			case strings.HasPrefix(m, "failed to create group g: "):
-				out = "perr " + c14PolicyErr(fmt.Errorf("%s", strings.TrimPrefix(m, "failed to create group g: ")))
-			case strings.HasPrefix(m, `failed to create group "g": `):
-				out = "ferr " + c14FilterErr(fmt.Errorf("%s", strings.TrimPrefix(m, `failed to create group "g": `)))
+			case strings.HasPrefix(m, "failed to create group g"):
+				out = "perr " + c14PolicyErr(fmt.Errorf("%s", m[strings.Index(m, ": ")+2:]))
+			case strings.HasPrefix(m, `failed to create group "g`):
+				out = "ferr " + c14FilterErr(fmt.Errorf("%s", m[strings.Index(m, ": ")+2:]))
 			default:
 				out = "gerr other " + c14x(m)
 			}
-		case len(res.Outbounds) != 3:
+		case len(res.Outbounds) != 2+len(gs):
 			out = fmt.Sprintf("groups:%d", len(res.Outbounds)-2)
 		default:
-			grp := res.Outbounds[2]
-			an := grp.VerifC14Annotations()
-			cloned := 0
-			idxOf := func(dd *dialer.Dialer) (int, bool) {
-				if i, ok := index[dd]; ok {
-					return i, true
-				}
-				// a clone made by the override loop: identified by (link, subscription tag)
-				i, ok := byLink[dd.Property().Link+"\x00"+dd.Property().SubscriptionTag]
-				return i, ok
-			}
-			members := "-"
-			if len(grp.Dialers) != len(an) {
-				members = fmt.Sprintf("annolen-mismatch:%d/%d", len(grp.Dialers), len(an))
-			} else if len(grp.Dialers) > 0 {
-				parts := make([]string, 0, len(grp.Dialers))
-				for i, dd := range grp.Dialers {
-					if _, same := index[dd]; !same {
-						cloned++
+			var parts []string
+			for k, g := range gs {
+				grp := res.Outbounds[2+k]
+				an := grp.VerifC14Annotations()
+				cloned := 0
+				idxOf := func(dd *dialer.Dialer) (int, bool) {
+					if i, ok := index[dd]; ok {
+						return i, true
 					}
-					idx, ok := idxOf(dd)
-					switch {
-					case !ok:
-						parts = append(parts, "?")
-					case an[i] == nil:
-						parts = append(parts, fmt.Sprintf("%d:nil", idx))
-					case dd.Property().Name != pool[idx].Name:
-						parts = append(parts, fmt.Sprintf("%d:renamed", idx))
-					default:
-						parts = append(parts, fmt.Sprintf("%d:%d", idx, int64(an[i].AddLatency)))
+					// a clone made by the override loop: identified by (link, subscription tag)
+					i, ok := byLink[dd.Property().Link+"\x00"+dd.Property().SubscriptionTag]
+					return i, ok
+				}
+				members := "-"
+				if len(grp.Dialers) != len(an) {
+					members = fmt.Sprintf("annolen-mismatch:%d/%d", len(grp.Dialers), len(an))
+				} else if len(grp.Dialers) > 0 {
+					ms := make([]string, 0, len(grp.Dialers))
+					for i, dd := range grp.Dialers {
+						if _, same := index[dd]; !same {
+							cloned++
+						}
+						idx, ok := idxOf(dd)
+						switch {
+						case !ok:
+							ms = append(ms, "?")
+						case an[i] == nil:
+							ms = append(ms, fmt.Sprintf("%d:nil", idx))
+						case dd.Property().Name != pool[idx].Name:
+							ms = append(ms, fmt.Sprintf("%d:renamed", idx))
+						default:
+							ms = append(ms, fmt.Sprintf("%d:%d", idx, int64(an[i].AddLatency)))
+						}
+					}
+					members = strings.Join(ms, ",")
+				}
+				if cloned > 0 {
+					stats.Inc("group.members_are_override_clones")
+				}
+				if grp.Name != g.Name {
+					members = "wrong-group-name"
+				}
+				pol := string(grp.GetSelectionPolicy())
+				sel := "-"
+				if grp.GetSelectionPolicy() == consts.DialerSelectionPolicy_Fixed {
+					sel = c14CtlFixedSel(grp, idxOf)
+					// the index is not exposed; the model line prints fixed:<i>: print the same from the parsed policy
+					if p, err := outbound.NewDialerSelectionPolicyFromGroupParam(g); err == nil {
+						pol = fmt.Sprintf("fixed:%d", p.FixedIndex)
 					}
 				}
-				members = strings.Join(parts, ",")
+				parts = append(parts, fmt.Sprintf("pol=%s members=%s sel=%s", pol, members, sel))
 			}
-			if cloned > 0 {
-				stats.Inc("group.members_are_override_clones")
+			out = "ok " + strings.Join(parts, " | ")
+			// every group is wired to its own outbound id: 2, 3, … in configuration order
+			ids = "ok"
+			if len(res.CallbackIDs) != len(gs) {
+				ids = fmt.Sprintf("count:%d", len(res.CallbackIDs))
 			}
-			pol := string(grp.GetSelectionPolicy())
-			sel := "-"
-			if grp.GetSelectionPolicy() == consts.DialerSelectionPolicy_Fixed {
-				sel = c14CtlFixedSel(grp, idxOf)
-				// the index is not exposed; it is observable through the selection. The model line
-				// prints fixed:<i>; print the same from the parsed policy (the real parser of it
-				// already ran inside the region).
-				if p, err := outbound.NewDialerSelectionPolicyFromGroupParam(g); err == nil {
-					pol = fmt.Sprintf("fixed:%d", p.FixedIndex)
+			for k, id := range res.CallbackIDs {
+				if int(id) != 2+k {
+					ids = fmt.Sprintf("id%d=%d", k, id)
 				}
 			}
-			out = fmt.Sprintf("ok pol=%s members=%s sel=%s", pol, members, sel)
 		}
-		st.Emit("grp"+pb.String()+body.String(), out)
+		st.Emit("grps"+body.String(), out)
 		pc := "-"
 		if parserChanged != "" {
 			pc = c14x(parserChanged)
 		}
-		fmt.Fprintf(side, "grp valid=%v lenient=%v pool=%s nodes=%d over=%d via=%s parserchanged=%s%s\n", valid, c14LenientPolicy(g.Policy), poolOK, len(pool), d.Over, via, pc, extra)
-		c14GroupStats(stats, out)
-		if d.Over != 0 && strings.HasPrefix(out, "ok ") {
-			stats.Inc("discrim.override_group_built")
-			if !strings.Contains(out, "members=- ") {
-				stats.Inc("discrim.override_group_built_nonempty")
+		fmt.Fprintf(side, "grps valid=%v lenient=%v pool=%s nodes=%d groups=%d over=%d via=%s ids=%s parserchanged=%s kind=%s kwsubtag=%v%s\n", valid, lenient, poolOK, len(pool), len(gs), over, via, ids, pc, kind, kwsubtag, extra)
+		for _, one := range strings.Split(strings.TrimPrefix(out, "ok "), " | ") {
+			if strings.HasPrefix(out, "ok ") {
+				c14GroupStats(stats, "ok "+one)
 			}
 		}
-		if strings.HasPrefix(out, "ok ") && len(pool) > 64 {
-			stats.Inc("discrim.large_pool_group_built")
+		if !strings.HasPrefix(out, "ok ") {
+			c14GroupStats(stats, out)
 		}
-		if strings.HasPrefix(out, "ok ") && len(tagToNodeList) >= 2 {
-			stats.Inc("discrim.multi_subscription_group_built")
+		if strings.HasPrefix(out, "ok ") {
+			if over != 0 {
+				stats.Inc("discrim.override_group_built")
+				if strings.Contains(out, "members=0:") || strings.Contains(out, "members=1:") || strings.Contains(out, ",") {
+					stats.Inc("discrim.override_group_built_nonempty")
+				}
+			}
+			if len(pool) > 64 {
+				stats.Inc("discrim.large_pool_group_built")
+			}
+			if len(tagToNodeList) >= 2 {
+				stats.Inc("discrim.multi_subscription_group_built")
+			}
+			if len(gs) >= 2 {
+				stats.Inc("discrim.sequence_of_2_plus_groups_built")
+			}
+			if kind == "after-unfiltered-override" {
+				// would the later subtag groups come out differently if the tags were lost?
+				lost := make([]c14Node, len(pool))
+				for i, n := range pool {
+					lost[i] = c14Node{Name: n.Name}
+				}
+				for _, g := range gs[1:] {
+					if c14SpecEval(o, lost, g).Members != c14SpecEval(o, pool, g).Members {
+						stats.Inc("discrim.subtag_group_after_unfiltered_override_group_sees_tags")
+						break
+					}
+				}
+			}
 		}
-		_ = sort.Strings
+	}
+
+	// a definition that builds (valid filter + valid policy), for sequences
+	goodDef := func(nodes []c14Node) *c14Def {
+		for try := 0; ; try++ {
+			d := c14GenDef(r, nodes, stats)
+			g := c14Direct(d)
+			var b strings.Builder
+			o := c14BodyTok(&b, nodes, g)
+			if _, err := outbound.NewDialerSelectionPolicyFromGroupParam(g); (err == nil && c14Valid(o, g)) || try > 8 {
+				return d
+			}
+		}
+	}
+	// subtag-filtered group over this pool
+	subtagDef := func(nodes []c14Node) *c14Def {
+		tag := c14Pick(r, c14Tags)
+		if len(nodes) > 0 {
+			tag = nodes[r.Intn(len(nodes))].Tag
+		}
+		f := c14Func{Name: "subtag", Not: r.Chance(0.3), Params: []c14Param{{Val: tag}}}
+		if r.Chance(0.3) {
+			f.Params = []c14Param{{Key: "regex", Val: "^" + c14QuoteMeta(strings.ToValidUTF8(tag, "")) + "$"}}
+		}
+		d := &c14Def{Lines: [][]c14Func{{f}}, Annos: [][]c14Param{c14GenAnno(r, 0, stats)}, Policy: c14Pick(r, []string{"min", "random", "min_avg10"})}
+		if r.Chance(0.4) {
+			d.Lines[0] = append(d.Lines[0], c14Func{Name: "name", Params: []c14Param{{Key: "keyword", Val: ""}}})
+		}
+		if r.Chance(0.3) {
+			d.Policy = []c14Func{{Name: "fixed", Params: []c14Param{{Val: fmt.Sprint(r.Intn(3))}}}}
+		}
+		return d
 	}
 
 	dn, dd := c14Directed()
 	for _, d := range dd {
-		run(dn, d, false)
+		run(dn, []*c14Def{d}, false, "single")
 	}
 	nPools := 260
 	if VThorough() {
@@ -312,14 +417,36 @@ func TestVerifC14Ctl(t *testing.T) {
 			nd = 2
 		}
 		for k := 0; k < nd; k++ {
-			d := c14GenDef(r, nodes, stats)
-			if len(nodes) > 64 && k == 0 {
-				for len(d.Lines) < 2 {
-					d = c14GenDef(r, nodes, stats)
+			switch x := r.Intn(100); {
+			case x < 15: // an unfiltered group WITH a check override first, then groups filtering by subtag
+				first := &c14Def{Policy: c14Pick(r, []string{"min", "random", "min_moving_avg"}), Over: 1 + r.Intn(31)}
+				defs := []*c14Def{first}
+				for j := 1 + r.Intn(3); j > 0; j-- {
+					defs = append(defs, subtagDef(nodes))
 				}
-				d.Over |= 8
+				stats.Inc("seq.unfiltered_override_group_then_subtag_groups")
+				run(nodes, defs, r.Chance(0.15), "after-unfiltered-override")
+			case x < 40: // a sequence of groups, mostly all buildable
+				var defs []*c14Def
+				for j := 2 + r.Intn(3); j > 0; j-- {
+					if r.Chance(0.9) {
+						defs = append(defs, goodDef(nodes))
+					} else {
+						defs = append(defs, c14GenDef(r, nodes, stats))
+					}
+				}
+				stats.Inc("seq.several_groups")
+				run(nodes, defs, r.Chance(0.15), "sequence")
+			default:
+				d := c14GenDef(r, nodes, stats)
+				if len(nodes) > 64 && k == 0 {
+					for len(d.Lines) < 2 {
+						d = c14GenDef(r, nodes, stats)
+					}
+					d.Over |= 8
+				}
+				run(nodes, []*c14Def{d}, r.Chance(0.15), "single")
 			}
-			run(nodes, d, r.Chance(0.15))
 		}
 	}
 }
